@@ -16,7 +16,6 @@ package genql
 import (
 	"crypto/sha256"
 	"encoding/hex"
-	"encoding/json"
 	"fmt"
 	"math"
 	"regexp"
@@ -1791,11 +1790,9 @@ func ExecDistinct(query *Query, current []any) ([]any, error) {
 	slice := make([]any, 0)
 	for _, item := range current {
 		sha256 := sha256.New()
-		fingerprint, err := json.Marshal(item)
-		if err != nil {
-			return nil, err
-		}
-		_, err = sha256.Write(fingerprint)
+		// the Go-syntax form quotes strings and sorts map keys: unlike %v it is injective, and
+		// unlike a JSON encoding it also covers ±Inf, NaN and strings that are not valid UTF-8
+		_, err := sha256.Write([]byte(fmt.Sprintf("%#v", item)))
 		if err != nil {
 			return nil, err
 		}
